@@ -181,7 +181,8 @@ def gen_cases(module, kernel, rng, n):
             if kind < 0.5:
                 m = [[float(rng.choice([0, 0, 1, 2, 3, 7, 20])) for _ in range(c_)] for _ in range(r_)]
             elif kind < 0.8:
-                m = [[rng.choice([0.0, rng.random(), -rng.random()]) for _ in range(c_)] for _ in range(r_)]
+                # signed entries as multiples of 1/8: the float row sums are exact (no cancellation error to argue about)
+                m = [[rng.choice([0.0, rng.randint(1, 16) / 8, -rng.randint(1, 16) / 8]) for _ in range(c_)] for _ in range(r_)]
             else:
                 m = [[float(rng.choice([-1, 0, 1])) for _ in range(c_)] for _ in range(r_)]
             yield {'k': kernel, 'args': [_ratmat(m)], 'floats': m, 'mode': rng.choice(['jit', 'py'])}
@@ -300,8 +301,8 @@ def real_one(module, case):
                            _ratmat(msm_i.tolist())]}
         try:
             inputs['oracle'] = {'peq': [core.rat_str(float(v)) for v in mh.msm.peq(msm_i)]}
-        except Exception:  # noqa
-            inputs['oracle'] = {}
+        except Exception as e:  # noqa
+            inputs['oracle'] = {'peq_err': core.err_name(e)}
         fn = None
     elif module == 'MsmNorm' and case['k'] == 'equilibrium_population':
         # the eigen-solver is an oracle of the translated function: record what it returned in the real run
